@@ -98,6 +98,7 @@ structure St where
   pre : List Tok
   inp : List Tok
   stk : List Entry
+  assign : Nat := 0      -- `state.assign` (restored by compileAssignTernary after every nested call, but visible inside them)
   deriving DecidableEq, Repr
 
 inductive Err where
@@ -303,34 +304,40 @@ def loopLeft (M : Nat) (cpp : Bool) (lv : Level) (lower : Nat → St → R) (d :
       if st2.inp.length < st.inp.length then loopLeft M cpp lv lower d st2 else .error .stuck
 termination_by st.inp.length
 
-/-- compileAssignTernary.  `entry = true`: the whole function; `entry = false`: its `while` loop.
-`assign` is `state.assign` (it is restored by the C++ code after every nested call). -/
-def assignTern (M : Nat) (cpp : Bool) (lv : Level) (lower : Nat → St → R) (entry : Bool) (d assign : Nat) (st : St) : R :=
+/-- compileAssignTernary.  `entry = true`: the whole function; `entry = false`: its `while` loop. -/
+def assignTern (M : Nat) (cpp : Bool) (lv : Level) (lower : Nat → St → R) (entry : Bool) (d : Nat) (st : St) : R :=
   if entry then
     match lower d st with
     | .error e => .error e
-    | .ok st1 => if st1.inp.length ≤ st.inp.length then assignTern M cpp lv lower false d assign st1 else .error .stuck
+    | .ok st1 => if st1.inp.length ≤ st.inp.length then assignTern M cpp lv lower false d st1 else .error .stuck
   else
     match st.inp with
     | [] => .ok st
     | t :: rest =>
-      let self (a : Nat) : Nat → St → R := fun d' st' =>
-        if st'.inp.length < st.inp.length then assignTern M cpp lv lower true d' a st' else .error .stuck
-      let continue_ (r : R) : R :=
+      let self : Nat → St → R := fun d' st' =>
+        if st'.inp.length < st.inp.length then assignTern M cpp lv lower true d' st' else .error .stuck
+      -- `after` = what the C++ code does to state.assign behind the compileBinOp call
+      let continue_ (after : Nat → Nat) (r : R) : R :=
         match r with
         | .error e => .error e
-        | .ok st2 => if st2.inp.length < st.inp.length then assignTern M cpp lv lower false d assign st2 else .error .stuck
+        | .ok st2 =>
+          if st2.inp.length < st.inp.length then assignTern M cpp lv lower false d { st2 with assign := after st2.assign }
+          else .error .stuck
       match lv.step cpp st.inp with
-      | .take s => continue_ (binopWith M s (self (assign + 1)) d st)
+      | .take s =>
+        -- state.assign++; compileBinOp(..); if (state.assign > 0) state.assign--;
+        continue_ (fun a => a - 1) (binopWith M s self d { st with assign := st.assign + 1 })
       | .jump k => .ok (st.adv k)
       | .stop =>
         if t = .op ['?'] then
           if rest.head? = some (.op [':']) then .error (.outside 1)   -- GNU `a ?: b` pushes a null operand
-          else continue_ (binopWith M ['?'] (self 0) d st)
+          else
+            -- const int assign = state.assign; state.assign = 0; compileBinOp(..); state.assign = assign;
+            continue_ (fun _ => st.assign) (binopWith M ['?'] self d { st with assign := 0 })
         else if t = .op [':'] then
           -- inCase / stopAtColon are false outside `case`/`return`/`throw` (keywords are outside the fragment)
-          if assign > 0 then .ok st
-          else continue_ (binopWith M [':'] (self assign) d st)
+          if st.assign > 0 then .ok st
+          else continue_ id (binopWith M [':'] self d st)
         else .ok st
 termination_by (st.inp.length, if entry then 1 else 0)
 decreasing_by
@@ -348,7 +355,7 @@ def ladder (M : Nat) (cpp : Bool) (prim : Nat → St → R) : List Level → Nat
       match ladder M cpp prim ls d st with
       | .error e => .error e
       | .ok st1 => loopLeft M cpp lv (ladder M cpp prim ls) d st1
-    | .assignTernary => assignTern M cpp lv (ladder M cpp prim ls) true d 0 st
+    | .assignTernary => assignTern M cpp lv (ladder M cpp prim ls) true d st
 
 /-- offset of the bracket that closes the group whose inside starts at the head of the list
 (`tok->link()`; createLinks guarantees proper nesting, so one counter for both bracket kinds is enough) -/
